@@ -138,6 +138,19 @@ MUTATIONS = {
         old="        if instance is not None:\n            return self.f_instance.__get__(instance, owner)",
         new="        if instance:\n            return self.f_instance.__get__(instance, owner)",
     ),
+    # ---- seeded/C20-y2: ITerm2Image is born with an own forced_support value ----
+    "c20-iterm2-own-forced-support-slot": dict(
+        file="image/iterm2.py",
+        old='    _TERM: str = ""\n    _TERM_VERSION: str = ""\n\n    jpeg_quality = ClassInstanceProperty(',
+        new='    _forced_support: bool = False\n    _TERM: str = ""\n    _TERM_VERSION: str = ""\n\n'
+            '    jpeg_quality = ClassInstanceProperty(',
+    ),
+    # ---- seeded/C20-y1: KittyImage.clear() guards on KittyImage's forcing, not the invoking class' ----
+    "c20-kitty-clear-guard-reads-own-class": dict(
+        file="image/kitty.py",
+        old="        if not (cls._forced_support or cls.is_supported()):\n            return\n",
+        new="        if not (__class__._forced_support or cls.is_supported()):\n            return\n",
+    ),
     # ---- own ------------------------------------------------------------------------------
     "c20-instance-unset-writes-default": dict(
         file="image/common.py",
